@@ -16,7 +16,9 @@
 (*   g     nesting: path of group names, outermost first                   *)
 (*   unk   for tag: a value outside the known set                          *)
 (*   el    this leaf starts a repeatable element (its innermost group)     *)
-(*   free  bytes the grammar does not constrain (VERIF_SEED noise)         *)
+(*   free  bytes neither the grammar nor the session constrains            *)
+(*         (VERIF_SEED noise); fields the code matches against session     *)
+(*         state - epoch, message_seq, transaction id - are not free       *)
 (*   tail  fixed leaf located at the end of its group (RTP/RTCP pad count) *)
 (*                                                                         *)
 (* The harness interprets these tables generically: it locates every leaf  *)
@@ -183,7 +185,7 @@ RtcpPadded ==
 (* handle_packet / handle_turn_packet; turn.rs recv)                        *)
 
 StunHdr == << Tg(<<"stun">>, "type", 2, 2), Ln(<<"stun">>, "length", 2, "attrs", 1, 0),
-              Tg(<<"stun">>, "cookie", 4, 0), Fr(<<"stun">>, "txid", 12) >>
+              Tg(<<"stun">>, "cookie", 4, 0), Fx(<<"stun">>, "txid", 12) >>
 SA == <<"stun", "attrs">>
 \* an attribute with opaque value
 Attr(a, unk)  == << El(Tg(SA \o <<a>>, a \o ".t", 2, unk)), Ln(SA \o <<a>>, a \o ".l", 2, a \o ".v", 1, 0),
@@ -216,12 +218,12 @@ TcpFrame(inner) ==
 (* DTLS  (dtls/record.rs, dtls/handshake.rs, dtls/mod.rs reassembly)        *)
 
 DtlsRec(r) ==
-  << El(Tg(<<r>>, r \o ".ctype", 1, 99)), Fx(<<r>>, r \o ".ver", 2), Fr(<<r>>, r \o ".epoch", 2), Fr(<<r>>, r \o ".seq", 6),
+  << El(Tg(<<r>>, r \o ".ctype", 1, 99)), Fx(<<r>>, r \o ".ver", 2), Fx(<<r>>, r \o ".epoch", 2), Fr(<<r>>, r \o ".seq", 6),
      Ln(<<r>>, r \o ".length", 2, r \o ".frag", 1, 0) >>
 \* one handshake message header inside record r (body group name hb)
 DtlsHsHdr(r, h) ==
   LET g == <<r, r \o ".frag", h>> IN
-  << El(Tg(g, h \o ".type", 1, 99)), Ln(g, h \o ".length", 3, h \o ".body", 1, 0), Fr(g, h \o ".mseq", 2),
+  << El(Tg(g, h \o ".type", 1, 99)), Ln(g, h \o ".length", 3, h \o ".body", 1, 0), Fx(g, h \o ".mseq", 2),
      Fx(g, h \o ".foff", 3), Ln(g, h \o ".flen", 3, h \o ".body", 1, 0) >>
 
 \* one extension with opaque value / the use_srtp extension (profile list, MKI length)
